@@ -472,6 +472,91 @@ func init() {
 	}})
 }
 
+func init() {
+	// IX2: two Flush calls: F1 flushes while M is still writing, F2 flushes after M's last call returned and
+	// queries; F2's result must reflect everything (a Flush may not rely on what an earlier Flush saw).
+	reg(&Scenario{Name: "IX2", Make: func(cfg Cfg) (func(), *Spec) {
+		sp := &Spec{Closes: -1, Index: true}
+		return func() {
+			ClearDB()
+			st := badgerstore.NewStore(DB)
+			qs := badgerstore.NewQueryStore(st, func(qs *badgerstore.QueryStore, q url.Values) (*badgerstore.IndexQuery, error) {
+				return &badgerstore.IndexQuery{Index: qs.Index("i"), Limit: -1}, nil
+			})
+			qs.AddIndex(badgerstore.Index{Name: "i", Key: func(v interface{}) []byte {
+				if s, ok := v.(map[string]interface{})["k"].(string); ok {
+					return []byte(s)
+				}
+				return nil
+			}})
+			ncb := 0
+			qs.OnQueryChange(func(qc store.QueryChange) {
+				ncb++
+				vsched.Emit(Mon, fmt.Sprintf("querychange %s", qc.ID()))
+			})
+			m1 := make(chan struct{}, 1)
+			m2 := make(chan struct{}, 1)
+			done := make(chan struct{}, 3)
+			spawn("M", done, func() {
+				wt := st.Write("a")
+				wt.Create(map[string]interface{}{"k": "k0"})
+				wt.Close()
+				vsched.Send(m1, struct{}{})
+				wt = st.Write("b")
+				wt.Create(map[string]interface{}{"k": "k1"})
+				wt.Close()
+				vsched.Send(m2, struct{}{})
+			})
+			spawn("F1", done, func() {
+				vsched.Recv(m1)
+				qs.Flush()
+			})
+			spawn("F2", done, func() {
+				vsched.Recv(m2)
+				qs.Flush()
+				res, err := qs.Query(nil)
+				vsched.Emit(Mon, fmt.Sprintf("afterflush2 %v %v callbacks=%d", res, err, ncb))
+			})
+			join(done, 3)
+		}, sp
+	}})
+
+	// ST5: a transaction handle closed twice (the second Close is an error) while other goroutines open write
+	// transactions on the same id: the stale Close must not release a lock it does not hold.
+	for _, kind := range []string{"mock", "badger-prefix"} {
+		kind := kind
+		reg(&Scenario{Name: "ST5-" + kind, Make: func(cfg Cfg) (func(), *Spec) {
+			sp := &Spec{Closes: -1, Store: true}
+			return func() {
+				st := newStore(kind)
+				stThread(st, "M", []stTxn{{true, "a", []string{"create:0"}}})
+				done := make(chan struct{}, 4)
+				spawn("T0", done, func() {
+					vsched.Emit(Mon, "txn-request T0.0 id=a write=true")
+					wt := st.Write("a")
+					vsched.Emit(Mon, "txn-open T0.0 id=a write=true")
+					vsched.Emit(Mon, "txn-close T0.0 id=a write=true")
+					wt.Close()
+					vsched.Yield()
+					err := wt.Close() // a second Close of the same handle
+					vsched.Emit(Mon, fmt.Sprintf("second-close err=%v", err != nil))
+				})
+				spawn("T1", done, func() { stThread(st, "T1", []stTxn{{true, "a", []string{"update:1", "value"}}}) })
+				spawn("T2", done, func() { stThread(st, "T2", []stTxn{{true, "a", []string{"update:2", "value"}}}) })
+				join(done, 3)
+				rt := st.Read("a")
+				v, err := rt.Value()
+				rt.Close()
+				r := errClass(err)
+				if err == nil {
+					r = "ok:" + js(v)
+				}
+				vsched.Emit(Mon, fmt.Sprintf("final id=a res=%s", r))
+			}, sp
+		}})
+	}
+}
+
 // JudgeIndex is the C13 oracle of IX1.
 func JudgeIndex(r *vsched.Result) []string {
 	var out []string
@@ -482,6 +567,9 @@ func JudgeIndex(r *vsched.Result) []string {
 		out = append(out, "C13: thread panicked: "+firstLines(p, 4))
 	}
 	for _, e := range r.Events {
+		if strings.HasPrefix(e.Text, "afterflush2 ") && e.Text != "afterflush2 [a b] <nil> callbacks=2" {
+			out = append(out, "C13: once the second Flush has returned the query must reflect every mutation made before it and all change callbacks must have run: got \""+e.Text+"\", want \"afterflush2 [a b] <nil> callbacks=2\"")
+		}
 		if strings.HasPrefix(e.Text, "afterflush ") && e.Text != "afterflush [b a] <nil> callbacks=3" {
 			out = append(out, "C13: once Flush has returned the query must reflect every mutation made before it and all change callbacks must have run: got \""+e.Text+"\", want \"afterflush [b a] <nil> callbacks=3\"")
 		}
